@@ -559,7 +559,9 @@ func ruleRetrieveHelper(c *Check, p *Prog, rule string) {
 		return cn == "strings.Contains" || cn == "strings.HasPrefix" || cn == "strings.HasSuffix" || cn == "strings.EqualFold" || cn == "strings.Index"
 	}) {
 		hay, needle := ArgTerm(mn, 0), ArgTerm(mn, 1)
-		if hay == nil || needle == nil || !p.DeepContains(hay, func(x *Term) bool { return (x.Op == "invoke" || x.Op == "call") && strings.HasSuffix(x.Name, "error).Error") || strings.HasSuffix(x.Name, ".Error") }, 3) {
+		if hay == nil || needle == nil || !p.DeepContains(hay, func(x *Term) bool {
+			return (x.Op == "invoke" || x.Op == "call") && strings.HasSuffix(x.Name, "error).Error") || strings.HasSuffix(x.Name, ".Error")
+		}, 3) {
 			continue
 		}
 		sentinel := p.DeepContains(needle, func(x *Term) bool {
